@@ -28,7 +28,7 @@ META = dict(
          "(antimeridian, poles, out-of-globe, missing) with the default box; product series of all positions in 3 "
          "orders; malformed boxes (3/5/0 items, None, str, number) and unequal lon/lat lengths must be rejected. Each "
          "state = one real call judged per point by the scalar reference (geographiclib per pair with explicit "
-         "Scale: 5000-fix track over the reduced position set, 1297-fix track with every ordered pair as a hop, 1200-fix tracks on both sides of the antimeridian and around the globe (extent small, hops huge). lat/lon). non-trivial = reference demands a flag other than GOOD or a rejection",
+         "lat/lon). Scale: 5000-fix track over the reduced position set, 1297-fix track with every ordered pair as a hop, 1200-fix tracks on both sides of the antimeridian and around the globe (extent small, hops huge). non-trivial = reference demands a flag other than GOOD or a rejection",
     bounds={"quick": {"track_len": "2 over 36 positions, 3 over a 16-position sub-grid and over the globe menu"}, "thorough": {"track_len": 3}},
     not_judged=[],
     assumptions=["geographiclib is the distance oracle; hop distances are compared with thresholds derived from the same oracle (exact equality included)"],
